@@ -38,6 +38,7 @@ type Case struct {
 	Query   vdav.CalQuery    `json:"query,omitempty"`
 	Multi   vdav.CalMultiGet `json:"multi,omitempty"`
 	Zone    int              `json:"zone,omitempty"` // client: the caller's zone offset (s)
+	TZ      string           `json:"tz,omitempty"`   // client: the caller's zone is this real zone with DST rules (overrides Zone)
 	NS      int              `json:"ns,omitempty"`   // client: sub-second part added to instants
 	Path    string           `json:"path"`
 	Lexical []int            `json:"lexical,omitempty"` // server: lexical choices of the writer
@@ -49,6 +50,9 @@ type Case struct {
 func (c Case) tm(v *int64) time.Time {
 	if v == nil {
 		return time.Time{}
+	}
+	if c.TZ != "" {
+		return time.Unix(*v, int64(c.NS)).In(vev.Zone(c.TZ))
 	}
 	return time.Unix(*v, int64(c.NS)).In(time.FixedZone("caller", c.Zone))
 }
@@ -494,9 +498,19 @@ func genTM(rt *rapid.T, noise bool) *vdav.TextMatch {
 	return tm
 }
 
+// curTZ: the real zone of the case being generated (rapid runs one case at a time); ranges then start and end near its
+// offset changes, inside a repeated or next to a skipped wall-clock hour
+var curTZ string
+
 func genRange(rt *rapid.T, label string) (*int64, *int64) {
 	a := rapid.Int64Range(-2e9, 4e9).Draw(rt, label+"-start")
 	b := a + rapid.Int64Range(1, 1e8).Draw(rt, label+"-len")
+	if curTZ != "" {
+		if tr := vev.Transitions(curTZ); len(tr) > 0 {
+			a = tr[rapid.IntRange(0, len(tr)-1).Draw(rt, label+"-tr")] + rapid.Int64Range(-7300, 3700).Draw(rt, label+"-d")
+			b = a + rapid.Int64Range(1, 7300).Draw(rt, label+"-zlen")
+		}
+	}
 	switch rapid.IntRange(0, 4).Draw(rt, label+"-kind") {
 	case 0:
 		return &a, nil
@@ -669,8 +683,11 @@ func features(c Case) []string {
 	if d.Comp != nil && len(d.Comp.Comps) > 0 {
 		add("nested-comp-request")
 	}
-	if c.Zone != 0 {
+	if c.Zone != 0 || c.TZ != "" {
 		add("non-utc-zone")
+	}
+	if c.TZ != "" {
+		add("dst-zone")
 	}
 	return f
 }
@@ -712,6 +729,12 @@ func TestClientToWire(t *testing.T) {
 	vev.Rapid(t, rec, 0, vev.N(3000, 150000), func(rt *rapid.T) {
 		c := Case{Dir: "client", Path: genPath(rt)}
 		c.Zone = rapid.SampledFrom([]int{0, 0, 3600, -3600, 19800, -34200, 50400, 1}).Draw(rt, "zone")
+		curTZ = ""
+		if rapid.IntRange(0, 3).Draw(rt, "realzone") == 0 {
+			c.TZ = rapid.SampledFrom(vev.Zones).Draw(rt, "tz")
+			curTZ = c.TZ
+		}
+		defer func() { curTZ = "" }()
 		c.NS = rapid.SampledFrom([]int{0, 0, 1, 999999999}).Draw(rt, "ns")
 		if rapid.IntRange(0, 3).Draw(rt, "kind") == 0 {
 			c.Kind = "multiget"
